@@ -37,9 +37,9 @@ CONFIG = {
     'hashseeds': {'quick': 2, 'thorough': 4},
     'min_evals': {'quick': {'c12.compute_SCCs': 100000},
                   'thorough': {'c12.compute_SCCs': 1500000}},
-    'must_sig': ['site:pyModelChecking.CTL.model_checking:_checkEG',
-                 'site:pyModelChecking.LTL.model_checking:_checkE_path_formula',
-                 'site:pyModelChecking.kripke:get_fair_states',
+    'must_sig': ['site:pyModelChecking.CTL.model_checking:*',
+                 'site:pyModelChecking.LTL.model_checking:*',
+                 'site:pyModelChecking.kripke:*',
                  'shape:multi_root', 'shape:nontrivial+trivial'],
     'rule': ('cases = (edge set, node insertion order, node naming, '
              'construction style); enumerated: every labelled digraph on <=4 '
